@@ -71,7 +71,8 @@ CLAIMED = {
               "capacity; sliding-window ghost lemma: a key inserted when absent is reported until (max_queue_size-1)*est further "
               "effective insertions"),
     "C11": _c("file/mmap model: an every-point invariant (file_ok) is proved after EVERY statement of add_alt, the base add loop, "
-              "__update, close and export; close + reopen lemmas restore cells, geometry and count",
+              "__update, close and export; close + reopen lemmas restore cells, geometry and count; bounded stand-in ondisk_trace reads the "
+              "real backing file at every executed library line of add / clear and after export, close, reopen",
               "assumes an flushed 8-byte write is atomic and that a killed process keeps page-cache contents; power loss is out of scope"),
     "C12": _c("union (Bloom, counting Bloom) and join (count-min) verified cell-wise with aliasing and on-disk operands; lemmas: "
               "the result equals the structure fed both streams (homomorphism step)"),
